@@ -19,7 +19,8 @@ CheckParams == {<<"CheckFermat", "0">>, <<"CheckFermat", "1">>, <<"CheckFermat",
 Helpers == {"FermatFactor", "FactorHighAndLowBitsEqual", "CheckContinuedFraction", "CheckFraction", "CheckSmallUpperDifferences",
             "Pollardpm1", "CheckLowHammingWeight", "FactorWithGuess"}
 \* aggregate checks: batch contexts
-Contexts == {"pair-shared", "nested", "duplicate", "three-partners", "alone", "n1-shared-big", "n1-shared-small"}
+\* even-np1-shared: even moduli whose SUCCESSORS n + 1 share a 200-bit factor (nothing divides n - 1: nothing may be recorded)
+Contexts == {"pair-shared", "nested", "duplicate", "three-partners", "alone", "n1-shared-big", "n1-shared-small", "even-np1-shared"}
 GcdBounds == {"1", "2^64", "2^128"}
 VARIABLE cell
 Init == \/ \E m \in ModClasses, cp \in CheckParams : cell = [kind |-> "single", mod |-> m, check |-> cp[1], param |-> cp[2]]
